@@ -314,6 +314,20 @@ func (fc *FCtx) switchAbsorb(out, fb *Flow) {
 // ---------------------------------------------------------------------------------------------
 
 func (fc *FCtx) execAssign(s *ast.AssignStmt, st *State) {
+	// x = append(x, ...) - the accumulate idiom: sharing x is the point, no aliasing hazard to report
+	if len(s.Lhs) == 1 && len(s.Rhs) == 1 {
+		if call, ok := unparen(s.Rhs[0]).(*ast.CallExpr); ok {
+			if fid, ok := unparen(call.Fun).(*ast.Ident); ok && fid.Name == "append" && len(call.Args) > 0 {
+				l, lok := unparen(s.Lhs[0]).(*ast.Ident)
+				a0, aok := unparen(call.Args[0]).(*ast.Ident)
+				if lok && aok && fc.info().ObjectOf(l) == fc.info().ObjectOf(a0) {
+					prev := fc.appendSelf
+					fc.appendSelf = call
+					defer func() { fc.appendSelf = prev }()
+				}
+			}
+		}
+	}
 	if s.Tok != token.ASSIGN && s.Tok != token.DEFINE {
 		// op=
 		var op token.Token
